@@ -1,4 +1,4 @@
-import TracklibVerif.Lemmas.TextIONet
+import TracklibVerif.Lemmas.TextIOGpx
 /-! # C13 — tracks and networks written to file are read back unchanged
 
 Theorems about the model `TV.TextIO` (`Model/TextIO.lean`), which mirrors
@@ -121,27 +121,24 @@ theorem time_roundtrip_suffix (f : List Tok) (h : Lossless f) (t : Stamp) (ht : 
     readTimestamp f (printTime f t ++ suf) = some (project f t) := by
   rw [readTimestamp_printTime_suffix f h t ht suf, applyCodes_epoch f t h.1]
 
-/-- **GPX, partial** `gpx_point_partial`: the three numbers the GPX writer prints for a track point
-(`{:3.8f}` in the `lat`/`lon` attributes and in `<ele>`) are read back by `float()` as the printed decimals,
-and the `<time>` text `4Y-2M-2DT2h:2m:2s` + `Z` is read back, with the ISO read format, as the same calendar
-fields (milliseconds 0). MISSING: the line scanner of `__readFromGpx` (which lines open and close tracks and
-points, `split('"')` of the attributes) is not covered by a theorem; it is modelled (`gpxLine`, `readGpx`) and
-tied to the code by the correspondence check only. -/
-theorem gpx_point_partial (r : GRow) (ht : Fits r.t) :
-    parseDec? (fixedWS 3 8 r.x) = some (r.x.toInt, 8) ∧ parseDec? (fixedWS 3 8 r.y) = some (r.y.toInt, 8) ∧
-    parseDec? (fixedWS 3 8 r.z) = some (r.z.toInt, 8) ∧
-    readTimestamp isoFmt (printTime isoFmt r.t ++ ['Z']) = some ⟨r.t.d, 0⟩ := by
-  refine ⟨parseDec_fixedWS _ _ _, parseDec_fixedWS _ _ _, parseDec_fixedWS _ _ _, ?_⟩
-  have hl : Lossless isoFmt := by decide
-  rw [time_roundtrip_suffix isoFmt hl r.t ht]
-  have h1 : hasL isoFmt 'Y' = true := by decide
-  have h2 : hasL isoFmt 'M' = true := by decide
-  have h3 : hasL isoFmt 'D' = true := by decide
-  have h4 : hasL isoFmt 'h' = true := by decide
-  have h5 : hasL isoFmt 'm' = true := by decide
-  have h6 : hasL isoFmt 's' = true := by decide
-  have h7 : hasL isoFmt 'z' = false := by decide
-  simp [project, h1, h2, h3, h4, h5, h6, h7]
+/-- **GPX** `gpx_file_roundtrip`: the text `writeToGpx` writes for a track (from the `<trk>` line on; the
+metadata block above it lies outside any `<trk>` and is skipped by the scanner) is read by the `trk` scanner of
+`__readFromGpx`, with a read format that reads ISO stamps (`ReadsIso`: `4Y-2M-2DT2h:2m:2s`, with or without
+the trailing `Z` — the format the caller has to set), as exactly one track with the same points in the same
+order: longitude, latitude with the eight printed decimals, the timestamp to the second, and the elevation
+when the coordinates are geographic. For `srid` ENU / ECEF the elevation comes back as 0 (`geo = false`): the
+scanner stores it in an attribute those coordinate classes do not use — the defect listed as
+`gpx-elevation-non-geo`. The track name must not contain `<` or a newline. -/
+theorem gpx_file_roundtrip (rf : List Tok) (hrf : ReadsIso rf) (geo : Bool) (name : Str)
+    (hname : '<' ∉ name ∧ '\n' ∉ name) (rows : List GRow) (hrows : ∀ r ∈ rows, Fits r.t) :
+    readGpx rf geo (gpxBody name rows) = .ok [rows.map (expG rf geo)] :=
+  TV.TextIO.gpx_file_roundtrip rf hrf geo name hname rows hrows
+
+/-- the two read formats the callers use for GPX files read ISO stamps; with them the calendar part of the
+timestamp comes back unchanged -/
+theorem gpx_read_formats : ReadsIso isoFmt ∧ ReadsIso (tokenize "4Y-2M-2DT2h:2m:2sZ".toList)
+    ∧ (∀ t, (project isoFmt t).d = t.d) ∧ (∀ t, (project (tokenize "4Y-2M-2DT2h:2m:2sZ".toList) t).d = t.d) :=
+  ⟨readsIso_iso, readsIso_isoZ, fun t => project_full _ t (by decide), fun t => project_full _ t (by decide)⟩
 
 /-- **written precision, partial** `written_precision_partial`: on the decimal lattice (values `±m / 10^d`)
 what the CSV writer prints for a coordinate and what `float()` reads from it denote the same number, and
